@@ -5,6 +5,18 @@ import (
 	"github.com/elk-language/elk/value/symbol"
 )
 
+// Grow the list, a capacity that Go cannot allocate (makeslice panics)
+// is reported as a too large capacity error.
+func growArrayList(list value.ArrayList, n int, nValue value.Value) (err value.Value) {
+	defer func() {
+		if r := recover(); r != nil {
+			err = value.Ref(value.NewTooLargeCapacityError(nValue.Inspect()))
+		}
+	}()
+	list.Grow(n)
+	return value.Undefined
+}
+
 // ::Std::ArrayList
 func initArrayList() {
 	// Instance methods
@@ -168,7 +180,9 @@ func initArrayList() {
 			if !ok {
 				return value.Undefined, value.Ref(value.NewCapacityTypeError(nValue.Inspect()))
 			}
-			self.Grow(n)
+			if err := growArrayList(self, n, nValue); !err.IsUndefined() {
+				return value.Undefined, err
+			}
 			return self.ToValue(), value.Undefined
 		},
 		DefWithParameters(1),
